@@ -338,6 +338,39 @@ def memo_not_mutated_in_place(ctx, rule):
                                              "edit_constant across its body, so its holder suddenly sees an empty/changed mapping (e.g. constant flags are not restored)" % norm(c)[:70],
                                  key="%s::memo-mutated-in-place" % f.qualname,
                                  input="with edit_constant(obj): Cls.param.add_parameter(...)  -> class-level constant flags are not restored on exit")
+    # objects(instance=False) and _cls_parameters hand the memo itself out: a local bound to such a call is the memo
+    MUT = ("clear", "pop", "popitem", "update", "setdefault", "__setitem__", "__delitem__")
+    for f in ctx.repo.all_funcs("param"):
+        handed = {}
+        for st in ast.walk(f.node):
+            if isinstance(st, ast.Assign) and len(st.targets) == 1 and isinstance(st.targets[0], ast.Name):
+                v = st.value
+                is_memo = (isinstance(v, ast.Attribute) and v.attr == "_cls_parameters") or (
+                    isinstance(v, ast.Call) and isinstance(v.func, ast.Attribute) and v.func.attr == "objects"
+                    and ((v.args and isinstance(v.args[0], ast.Constant) and v.args[0].value is False)
+                         or any(k.arg == "instance" and isinstance(k.value, ast.Constant) and k.value.value is False for k in v.keywords)))
+                if is_memo:
+                    handed[st.targets[0].id] = norm(v)
+        if not handed:
+            continue
+        rebound = {nm for nm in handed if sum(1 for st in ast.walk(f.node) if isinstance(st, (ast.Assign, ast.AugAssign))
+                                              for t in (st.targets if isinstance(st, ast.Assign) else [st.target]) if isinstance(t, ast.Name) and t.id == nm) > 1}
+        for c in ast.walk(f.node):
+            hit = None
+            if isinstance(c, ast.Call) and isinstance(c.func, ast.Attribute) and c.func.attr in MUT and isinstance(c.func.value, ast.Name) and c.func.value.id in handed:
+                hit = (c.func.value.id, norm(c)[:60])
+            if isinstance(c, (ast.Assign, ast.AugAssign, ast.Delete)):
+                tg = c.targets if isinstance(c, (ast.Assign, ast.Delete)) else [c.target]
+                for t in tg:
+                    if isinstance(t, ast.Subscript) and isinstance(t.value, ast.Name) and t.value.id in handed:
+                        hit = (t.value.id, norm(c)[:60])
+                    if isinstance(c, ast.AugAssign) and isinstance(t, ast.Name) and t.id in handed:
+                        hit = (t.id, norm(c)[:60])
+            if hit and hit[0] not in rebound:
+                n += 1
+                ctx.fail(rule, f, c, "`%s` changes, in place, the dict obtained from `%s`: that is the class-level `.param` lookup itself (it is handed out by reference), so what the statement "
+                                     "puts in -- e.g. per-instance Parameter copies -- becomes what `Cls.param[name]` answers for every user of the class" % (hit[1], handed[hit[0]]),
+                         key="%s::memo-mutated-through-alias" % f.qualname, input="inst.param.x; with edit_constant(inst): pass; Cls.param['x'] is no longer Cls.__dict__['x']")
     inval = [g for g in ctx.repo.all_funcs("param.parameterized") if g.name == "_clear_params_cache"]
     for g in inval:
         rebinding = [st for st in ast.walk(g.node) if isinstance(st, ast.Assign) and any(isinstance(t, ast.Attribute) and t.attr == "params" for t in st.targets)]
